@@ -977,11 +977,13 @@ func (r *Reader) parseDocument() error {
 
 // parseBodyElementsInOrder parses body elements maintaining document order.
 //
-// xml.Unmarshal collects the direct <w:p> and <w:tbl> children of <w:body> into
-// two separate slices. This second pass walks the same tokens and pairs the n-th
-// direct <w:p> (<w:tbl>) child with the n-th entry of the matching slice. Only
-// direct children of the body count: paragraphs and tables nested deeper (in
-// table cells, text boxes, content controls, ...) are not in those slices.
+// xml.Unmarshal collects the block-level <w:p> and <w:tbl> elements of <w:body>
+// into two separate slices (bodyXML.UnmarshalXML). This second pass walks the same
+// tokens and pairs the n-th block-level <w:p> (<w:tbl>) with the n-th entry of the
+// matching slice. Block level means: a direct child of the body, or of a block
+// container (isBlockContainer) that is at block level itself. Paragraphs and tables
+// nested in anything else (table cells, text boxes, properties of a content
+// control, ...) are not in those slices and do not count.
 func (r *Reader) parseBodyElementsInOrder(data []byte) error {
 	if r.document.Body == nil {
 		return nil
@@ -989,7 +991,8 @@ func (r *Reader) parseBodyElementsInOrder(data []byte) error {
 
 	decoder := xml.NewDecoder(strings.NewReader(string(data)))
 	var inBody bool
-	var depth int // nesting depth below <w:body>; its direct children are at depth 1
+	var depth int      // nesting depth below <w:body>; its direct children are at depth 1
+	var containers int // the open elements at depths 1..containers are block containers
 	var paraIndex, tableIndex int
 
 	for {
@@ -1005,12 +1008,17 @@ func (r *Reader) parseBodyElementsInOrder(data []byte) error {
 				if t.Name.Local == "body" {
 					inBody = true
 					depth = 0
+					containers = 0
 				}
 				continue
 			}
 
 			depth++
-			if depth != 1 {
+			if depth != containers+1 {
+				continue
+			}
+			if isBlockContainer(t.Name.Local) {
+				containers = depth
 				continue
 			}
 
@@ -1041,6 +1049,9 @@ func (r *Reader) parseBodyElementsInOrder(data []byte) error {
 				// End of the body itself
 				inBody = false
 				continue
+			}
+			if depth == containers {
+				containers--
 			}
 			depth--
 		}
